@@ -1062,8 +1062,16 @@ class Program:
             yield from self._reads(f, ex, ln, bid, i)
 
     def _reads(self, f, ex, ln, bid, i):
+        pure_targets = set()
         for n in walk_own(ex):
-            if n[0] in GLOBKINDS:
+            if is_assign(n) and n[1] == '=':
+                t = n[2]
+                while isinstance(t, (list, tuple)) and t and t[0] in ('ref', 'cf'):
+                    t = t[1]
+                if isinstance(t, (list, tuple)) and t and t[0] in GLOBKINDS:
+                    pure_targets.add(id(t))
+        for n in walk_own(ex):
+            if n[0] in GLOBKINDS and id(n) not in pure_targets:
                 yield self.gkey(f, n[0], n[1]), (line_of(n) or ln), n, bid, i
 
 
